@@ -334,6 +334,7 @@ def h_firstuse(p):
     from . import c17backend as BK
     LK.os, LK.Template, LK.threading = ORIG["os"], ORIG["Template"], ORIG["threading"]
     UT.timeit, UT.operator = ORIG["timeit"], ORIG["operator"]
+    BK.install(CA.CacheImpl)
     CA.register_plugin("refdict", "props.c17backend", "RefDict")
     BK.reset()
     sched = Sched(p, 2, trace_codes=firstuse_targets(CA, UT))
@@ -445,6 +446,7 @@ from mako import cache as CA, util as UT
 from mako.template import Template
 from props import c17backend as BK
 from props.C16 import FIRSTUSE_TEMPLATE, firstuse_targets
+BK.install(CA.CacheImpl)
 CA.register_plugin("refdict", "props.c17backend", "RefDict")
 BK.reset()
 order = [x.split(":", 1)[0] for x in CASE["schedule"]]
